@@ -151,7 +151,7 @@ func ParseExpr(src string) (*Expr, error) {
 }
 
 func (ps *parser) peek() lexTok { return ps.toks[ps.p] }
-func (ps *parser) next() lexTok  { t := ps.toks[ps.p]; ps.p++; return t }
+func (ps *parser) next() lexTok { t := ps.toks[ps.p]; ps.p++; return t }
 func (ps *parser) accept(op string) bool {
 	if t := ps.peek(); t.kind == "op" && t.text == op {
 		ps.p++
